@@ -12,6 +12,7 @@ import (
 	_ "github.com/akrennmair/updog/driver"
 	"github.com/akrennmair/updog/internal/queryparser"
 	updogv1 "github.com/akrennmair/updog/proto/updog/v1"
+	"github.com/akrennmair/updog/zzverif/flk"
 	"github.com/akrennmair/updog/zzverif/ix"
 	"github.com/akrennmair/updog/zzverif/model"
 	"github.com/akrennmair/updog/zzverif/rt"
@@ -27,6 +28,9 @@ func c12Datasets() [][]model.Row {
 		{{"a": "x", "b": "é", "c": ""}, {"a": "x", "b": "q\"\n", "c": "1"}, {"a": "y", "b": "é", "c": "1"}},
 		{{"a": "only"}},
 		{{"a": "x", "count": "7", "b": "y"}, {"a": "x", "count": "8"}, {"a": "z", "count": "7", "b": "y"}},
+		// values that are prefixes of each other and continue with characters below and above ',' (row order = the library's
+		// column-by-column order, not the order of the joined strings)
+		{{"a": "new", "b": "y"}, {"a": "new york", "b": "x"}, {"a": "new+", "b": "x"}, {"a": "new", "b": "x,1"}, {"a": "new-", "b": "y"}, {"a": "x", "b": "y"}},
 	}
 	// a sample of the small-scope product: every dataset of exactly 2 rows over the 9 shapes of C01's space A
 	for _, d := range spaceADatasets(2) {
@@ -276,6 +280,7 @@ func c12Bound(w *c12World, rows []model.Row, opt int, cov *rt.Coverage) (string,
 		{`^ a = $1 ; b`, func(a []any) string { return `^ a = ` + q(a[0]) + ` ; b` }, 1},
 		{`^ ( a = $1 | b = $2 ) ; a`, func(a []any) string { return `^ ( a = ` + q(a[0]) + ` | b = ` + q(a[1]) + ` ) ; a` }, 2},
 		{`a = $2 & ^ b = $1`, func(a []any) string { return `a = ` + q(a[1]) + ` & ^ b = ` + q(a[0]) }, 2},
+		{`a = $1 | b = $1 | ^ a = $2 ; a`, func(a []any) string { return `a = ` + q(a[0]) + ` | b = ` + q(a[0]) + ` | ^ a = ` + q(a[1]) + ` ; a` }, 2},
 	}
 	vals := []any{"x", "1", "y", "2", "zz"}
 	for _, t := range tpls {
@@ -331,6 +336,7 @@ func (w *c12World) close() {
 }
 
 func c12Worker(ctx *rt.Ctx, job *rt.Job) []*rt.Violation {
+	flk.Sequential(true) // single goroutine: a lock of updog or bbolt that cannot be taken now never will be (reported as a hang)
 	trees, gbs := c12Texts(ctx.Thorough())
 	dss := c12Datasets()
 	var vs []*rt.Violation
@@ -368,7 +374,7 @@ func c12Worker(ctx *rt.Ctx, job *rt.Job) []*rt.Violation {
 					}
 				}
 			}
-			if di < 5 {
+			if di < 6 {
 				if m, c := c12Overlap(w, rows, opt, ctx.Cov); m != "" {
 					vs = append(vs, rt.NewViolation("C12", "overlap", c.sig(), c, "%s", m))
 				}
@@ -397,7 +403,7 @@ func c12Run(ctx *rt.Ctx) []*rt.Violation {
 	outs := rt.RunJobs(ctx, jobs, rt.SpawnOpt{})
 	vs := rt.Collect(ctx, outs, nil)
 	trees, gbs := c12Texts(ctx.Thorough())
-	ctx.Cov.Note("rule", fmt.Sprintf("%d datasets (5 fixed incl. rows lacking columns, odd strings and a column literally named count + all 81 two-row datasets of the 9-shape space) x %d DSN option strings {-, preload} x {-, lrucache size 0, lrucache ample} x %d expressions x %d group-by lists (length 0..3, repeated and unknown columns): db.Query through database/sql compared with Index.Execute on a copy of the same file: Columns, ColumnTypes (TEXT.../BIGINT, string/int64), every row scanned into (string..., int64), order, counts, error iff the library errs; on the 4 fixed datasets additionally every ordered pair of 8 texts as two result sets open at the same time on one handle (read in both orders), and 4 placeholder texts (also below NOT) executed through one prepared statement and the direct path with every ordered pair of argument lists (l1, l2, l1) against the literal text; non-trivial = grouped queries, overlap and bound cases", len(c12Datasets()), len(c12DSNOpts), len(trees), len(gbs)))
+	ctx.Cov.Note("rule", fmt.Sprintf("%d datasets (6 fixed incl. prefix-related values, rows lacking columns, odd strings and a column literally named count + all 81 two-row datasets of the 9-shape space) x %d DSN option strings {-, preload} x {-, lrucache size 0, lrucache ample} x %d expressions x %d group-by lists (length 0..3, repeated and unknown columns): db.Query through database/sql compared with Index.Execute on a copy of the same file: Columns, ColumnTypes (TEXT.../BIGINT, string/int64), every row scanned into (string..., int64), order, counts, error iff the library errs; on the 4 fixed datasets additionally every ordered pair of 8 texts as two result sets open at the same time on one handle (read in both orders), and 4 placeholder texts (also below NOT) executed through one prepared statement and the direct path with every ordered pair of argument lists (l1, l2, l1) against the literal text; non-trivial = grouped queries, overlap and bound cases", len(c12Datasets()), len(c12DSNOpts), len(trees), len(gbs)))
 	ctx.Assumef("the library result is the oracle (it is itself checked by C01/C02); query texts are produced by the formatter (checked by C10)")
 	return vs
 }
